@@ -700,3 +700,98 @@ pub fn read_entropies() -> Vec<Vec<u8>> {
     // entropy strings arrive as hex arguments
     std::env::args().skip(1).map(|a| unhex(&a)).collect()
 }
+
+// ------------------------------------------------------------------------------------------------
+// coinductive comparison of compile-time definitions with a portable registry (C02 on real types)
+
+use scale_info::{MetaType, PortableRegistry};
+
+/// For every `(MetaType, id)` root: the entry `id` of `reg` must be the image of
+/// `MetaType::type_info()` — same path, parameter names, members (names, type names, docs, order),
+/// variant names / indices / docs, array length, docs — and so on through every reference.
+/// Returns the number of distinct (type, id) pairs visited.
+pub fn sim(reg: &PortableRegistry, roots: &[(MetaType, u32)]) -> Result<usize, String> {
+    use std::collections::HashSet;
+    let mut visited: HashSet<(core::any::TypeId, u32)> = HashSet::new();
+    let mut queue: Vec<(MetaType, u32)> = roots.to_vec();
+    while let Some((m, id)) = queue.pop() {
+        if !visited.insert((m.type_id(), id)) {
+            continue;
+        }
+        let got = reg.types.iter().find(|t| t.id == id).map(|t| &t.ty).ok_or_else(|| format!("id {id} does not resolve"))?;
+        let want = m.type_info();
+        let w = format!("entry {id} ({:?})", want.path.segments);
+        if got.path.segments.iter().map(|s| s.as_str()).collect::<Vec<_>>() != want.path.segments {
+            return Err(format!("{w}: path {:?}", got.path.segments));
+        }
+        if got.docs.iter().map(|s| s.as_str()).collect::<Vec<_>>() != want.docs {
+            return Err(format!("{w}: docs {:?} vs {:?}", got.docs, want.docs));
+        }
+        if got.type_params.len() != want.type_params.len() {
+            return Err(format!("{w}: {} parameters vs {}", got.type_params.len(), want.type_params.len()));
+        }
+        for (g, p) in got.type_params.iter().zip(want.type_params.iter()) {
+            if g.name.as_str() != p.name {
+                return Err(format!("{w}: parameter {:?} vs {:?}", g.name, p.name));
+            }
+            match (g.ty, p.ty) {
+                (None, None) => {}
+                (Some(i), Some(mt)) => queue.push((mt, i.id)),
+                _ => return Err(format!("{w}: parameter {} Some/None mismatch", p.name)),
+            }
+        }
+        let mut fields = |gf: &[Field<scale_info::form::PortableForm>], wf: &[Field<MetaForm>]| -> Result<(), String> {
+            if gf.len() != wf.len() {
+                return Err(format!("{w}: {} members vs {}", gf.len(), wf.len()));
+            }
+            for (g, f) in gf.iter().zip(wf.iter()) {
+                if g.name.as_deref() != f.name || g.type_name.as_deref() != f.type_name || g.docs.iter().map(|s| s.as_str()).collect::<Vec<_>>() != f.docs {
+                    return Err(format!("{w}: member (name {:?}, type name {:?}, docs {:?}) vs (name {:?}, type name {:?}, docs {:?})", g.name, g.type_name, g.docs, f.name, f.type_name, f.docs));
+                }
+                queue.push((f.ty, g.ty.id));
+            }
+            Ok(())
+        };
+        match (&got.type_def, &want.type_def) {
+            (TypeDef::Composite(g), TypeDef::Composite(c)) => fields(&g.fields, &c.fields)?,
+            (TypeDef::Variant(g), TypeDef::Variant(v)) => {
+                if g.variants.len() != v.variants.len() {
+                    return Err(format!("{w}: {} variants vs {}", g.variants.len(), v.variants.len()));
+                }
+                for (gv, wv) in g.variants.iter().zip(v.variants.iter()) {
+                    if gv.name.as_str() != wv.name || gv.index != wv.index || gv.docs.iter().map(|s| s.as_str()).collect::<Vec<_>>() != wv.docs {
+                        return Err(format!("{w}: variant ({:?}, {}) vs ({:?}, {})", gv.name, gv.index, wv.name, wv.index));
+                    }
+                    fields(&gv.fields, &wv.fields)?;
+                }
+            }
+            (TypeDef::Sequence(g), TypeDef::Sequence(s)) => queue.push((s.type_param, g.type_param.id)),
+            (TypeDef::Compact(g), TypeDef::Compact(s)) => queue.push((s.type_param, g.type_param.id)),
+            (TypeDef::Array(g), TypeDef::Array(a)) => {
+                if g.len != a.len {
+                    return Err(format!("{w}: array length {} vs {}", g.len, a.len));
+                }
+                queue.push((a.type_param, g.type_param.id))
+            }
+            (TypeDef::Tuple(g), TypeDef::Tuple(t)) => {
+                if g.fields.len() != t.fields.len() {
+                    return Err(format!("{w}: tuple arity {} vs {}", g.fields.len(), t.fields.len()));
+                }
+                for (gi, mt) in g.fields.iter().zip(t.fields.iter()) {
+                    queue.push((*mt, gi.id))
+                }
+            }
+            (TypeDef::Primitive(g), TypeDef::Primitive(p)) => {
+                if g != p {
+                    return Err(format!("{w}: primitive {:?} vs {:?}", g, p));
+                }
+            }
+            (TypeDef::BitSequence(g), TypeDef::BitSequence(b)) => {
+                queue.push((b.bit_store_type, g.bit_store_type.id));
+                queue.push((b.bit_order_type, g.bit_order_type.id));
+            }
+            _ => return Err(format!("{w}: definition kinds differ")),
+        }
+    }
+    Ok(visited.len())
+}
